@@ -222,14 +222,10 @@ func (lx *lexer) number() error {
 		if p < len(lx.src) && (lx.src[p] == 'e' || lx.src[p] == 'E') {
 			return &UnsupportedError{Construct: "real number literal", File: lx.file, Line: line}
 		}
-		// look ahead over blanks (not newlines with comments, keep it simple) for a base
-		q := p
-		for q < len(lx.src) && (lx.src[q] == ' ' || lx.src[q] == '\t') {
-			q++
-		}
-		if q < len(lx.src) && lx.src[q] == '\'' {
-			p = q
-		} else {
+		// A size separated from the base by blanks ("8 'd3") is left as two
+		// tokens and joined by the expression parser, so that a delay
+		// followed by an unsized literal ("#1 'b0") keeps its meaning.
+		if !(p < len(lx.src) && lx.src[p] == '\'') {
 			lx.emit(tNumber, sb.String(), line)
 			lx.pos = p
 			return nil
